@@ -371,3 +371,6 @@ PLAN["C15"]["units"] = PLAN["C15"]["units"] + _ENTRY[:2] + [UT + "check_multipro
 PLAN["C15"]["trusted_base"] = PLAN["C15"]["trusted_base"]
 PLAN["C01"]["units"] = PLAN["C01"]["units"] + ["hypercorn.app_wrappers:ASGIWrapper.__call__"]
 PLAN["C05"]["units"] = PLAN["C05"]["units"] + ["hypercorn.app_wrappers:ASGIWrapper.__call__"]
+# C17 "script name and path split by root_path": the split assumes a normalised root_path (every source)
+PLAN["C17"]["standins"] = PLAN["C17"].get("standins", []) + [{"file": "standins/root_path.py", "name": "root_path read back from every configuration source has no trailing slash",
+                                                               "label": "BOUNDED stand-in, not counted as proved"}]
